@@ -33,6 +33,9 @@ MAP = [
     ("elements_to_ignore_percentile must not drop", "C10", "kMinPathErrorCycles(flow_attr_origin='node', elements_to_ignore_percentile=p) always raised ValueError: the percentile selection replaced the internal ignore list that holds the node-expanded graph's original edges (also C11, C19 converse; pointed out by a seeding sub-agent, reproduced by the C10 percentile-vs-explicit-list cases)"),
     ("subgraph-scanning lower bound must skip windows", "C03", "MinFlowDecomp(use_subgraph_scanning_lowerbound) raised 'Failed to add columns' / OverflowError when a scanning window consisted of ignored edges only (weight bound -inf); found by the thorough tier, now also in the quick corpus"),
     ("safe sequences must tolerate edges that lie on no source-to-sink walk", "C06", "maximal_safe_sequences_via_dominators raised IndexError on digraphs containing an edge from which the sink cannot be reached / that no source reaches: walk models with a non-empty trusted set crashed at construction (also C08, C19 converse); found by the exhaustive small-scope enumeration of the thorough tier"),
+    ("minimum searches over k must go beyond the number of edges when constraints", "C03", "MinFlowDecomp / MinFlowDecompCycles / MinPathCoverCycles reported 'not solved' when the constrained optimum exceeds the number of edges (hub with 4 in- and 2 out-edges, all 8 pairs constrained: optimum 8 > 6) (also C04, C09, C10)"),
+    ("path-length and edge-position variables must not be integer", "C10", "kMinPathError with a length attribute holding non-integral edge lengths was always infeasible: path-length / edge-position variables were declared integer although they are sums of edge lengths"),
+    ("MinSetCover must not drop a selected subset", "C15", "MinSetCover.solve() compared the solver values of its 0/1 variables with == 1: a selected subset returned as 0.9999999999999999 was dropped and the returned index list was not a cover (universe 0..5, 8 weighted subsets; found by the thorough tier, now in the quick corpus)"),
     ("MinErrorFlow with few_flow_values_epsilon on node-weighted", "C16", "MinErrorFlow(flow_attr_origin='node', few_flow_values_epsilon>0) raised KeyError"),
 ]
 def main():
